@@ -3,7 +3,7 @@ CONSTANTS
   Mode = "bfs"
   Ns = {4}
   Shapes = {1,2,3,4,5,6}
-  Deep = {3,4,5}
+  Deep = {4,5}
   MaxLen = 2
   MaxPages = 40
   Deep3 = {4,5}
